@@ -21,6 +21,26 @@ pub(crate) fn statement_first(statement: &Statement) -> usize {
         .unwrap_or(0)
 }
 
+/// The number of line feeds in the comments and whitespaces before the first token of the
+/// statement (they are written, and moved, with the statement).
+pub(crate) fn statement_leading_lines(statement: &Statement) -> usize {
+    first_statement_token(statement)
+        .map(|token| {
+            token
+                .iter_leading_trivia()
+                .map(|trivia| {
+                    trivia
+                        .try_read()
+                        .unwrap_or_default()
+                        .chars()
+                        .filter(|c| *c == '\n')
+                        .count()
+                })
+                .sum()
+        })
+        .unwrap_or(0)
+}
+
 fn get_token_line(token: &Token) -> Option<usize> {
     token
         .iter_trailing_trivia()
